@@ -9,3 +9,6 @@ package star
 //@
 //@ func (*socket).RecvMsg
 //@   ensures isnil(result1) && result0 != nil ==> len(result0.Header) == 0
+//@
+//@ func (*socket).GetOption
+//@   ensures name == protocol.OptionRaw ==> isnil(result1) && result0 == iface(false)
